@@ -151,6 +151,38 @@ _NEAR = [('2n+1', '2n+2'), ('odd', 'even'), ('(2)', '(3)'), ('n+2', 'n+3'), ('-n
          ('=submit]', '=submit s]'), ('=text]', '=text i]'), ('[type', '[TYPE'), ('[type', '[id'), ('|', '')]
 
 
+def _first(t):
+    for x in t:
+        return x
+    return 'zz'
+
+
+# in-place operations a container may offer; tried only when the object actually has the method
+_MUTATORS = [
+    ('__ior__', lambda t: t.__ior__({'zz': 'urn:x-mutated'} if hasattr(t, 'keys') else {'zz'})),
+    ('update', lambda t: t.update({'zz': 'urn:x-mutated'} if hasattr(t, 'keys') else {'zz'})),
+    ('clear', lambda t: t.clear()),
+    ('pop', lambda t: t.pop(_first(t)) if hasattr(t, 'keys') else t.pop()),
+    ('popitem', lambda t: t.popitem()),
+    ('setdefault', lambda t: t.setdefault('zz', 'urn:x-mutated')),
+    ('__setitem__', lambda t: t.__setitem__(_first(t) if hasattr(t, 'keys') else 0, 'urn:x-mutated')),
+    ('__delitem__', lambda t: t.__delitem__(_first(t) if hasattr(t, 'keys') else 0)),
+    ('append', lambda t: t.append('mutated')),
+    ('extend', lambda t: t.extend(['mutated'])),
+    ('insert', lambda t: t.insert(0, 'mutated')),
+    ('remove', lambda t: t.remove(_first(t))),
+    ('reverse', lambda t: t.reverse()),
+    ('sort', lambda t: t.sort(key=repr)),
+    ('__iadd__', lambda t: t.__iadd__(['mutated'])),
+    ('__imul__', lambda t: t.__imul__(2)),
+    ('add', lambda t: t.add('mutated')),
+    ('discard', lambda t: t.discard(_first(t))),
+    ('__iand__', lambda t: t.__iand__(set())),
+    ('__isub__', lambda t: t.__isub__(set(t))),
+    ('__ixor__', lambda t: t.__ixor__({'mutated'})),
+]
+
+
 def near_miss(rng, pattern):
     """A pattern that differs from ``pattern`` in one token (one number, one name, one operator)."""
 
@@ -516,8 +548,24 @@ class Machine:
         slots = fp._slots(node) or []
         return slots[op.get('slot', 0) % len(slots)] if slots else '_hash'
 
+    def _call_target(self, node, op):
+        """The container a 'call' mutation goes for: a map node itself, or the value of one slot of a selector node."""
+        if isinstance(node, self.ct.ImmutableDict):
+            return node
+        try:
+            return getattr(node, self._slot_for(node, op))
+        except AttributeError:
+            return node
+
     def _describe_mutation(self, node, op):
         action = op['action']
+        if action == 'call':
+            t = self._call_target(node, op)
+            names = [n for n, _ in _MUTATORS if hasattr(t, n)]
+            if not names:
+                return f'no in-place method on {type(t).__name__}'
+            return f'{names[op.get("m", 0) % len(names)]} on {type(t).__name__}' + (
+                '' if t is node else f' in {type(node).__name__}.{self._slot_for(node, op)}')
         if isinstance(node, self.ct.ImmutableDict):
             return ('setitem ' if action in ('set', 'setnew') else 'delitem ') + type(node).__name__
         if action == 'setnew':
@@ -526,6 +574,14 @@ class Machine:
 
     def _attempt_mutation(self, node, op):
         action = op['action']
+        if action == 'call':
+            # ordinary in-place operations of whatever container type the part happens to be (|=, +=, update, append, ...)
+            t = self._call_target(node, op)
+            cands = [(n, f) for n, f in _MUTATORS if hasattr(t, n)]
+            if not cands:
+                raise TypeError('no in-place method')
+            cands[op.get('m', 0) % len(cands)][1](t)
+            return
         if isinstance(node, self.ct.ImmutableDict):
             keys = list(node)
             if action in ('set', 'setnew'):
@@ -757,8 +813,8 @@ def gen_history(rng, nkeys, length, mode):
             ops_.append(op)
         elif r < 0.86:
             ops_.append({'op': 'mutate', 'obj': rng.randrange(50), 'node': rng.randrange(400),
-                         'slot': rng.randrange(12), 'action': rng.choice(['set', 'del', 'del', 'setnew']),
-                         'value': rng.choice(['mutated', 0, None])})
+                         'slot': rng.randrange(12), 'action': rng.choice(['set', 'del', 'del', 'setnew', 'call', 'call']),
+                         'value': rng.choice(['mutated', 0, None]), 'm': rng.randrange(64)})
         elif r < 0.93:
             ops_.append({'op': 'eq', 'a': rng.randrange(50), 'b': rng.randrange(50)})
         else:
